@@ -304,6 +304,11 @@ def _run_stream_init_sync(
                 # Messages the method logged before it raised precede the error.
                 raise _RpcHttpError(exc, status_code=outcome.http_status, preamble=sink.flush_contents) from exc
 
+            # The state object returned by the method serves the turn folded into
+            # /init (producers) as it is: attach its call state, as every later
+            # turn does after opening the tokens.
+            result.state.bind_call_state(result.call_state)
+
             # Mint the stream's call token once, here.  Everything it carries —
             # the call state, both schemas, the stream id — is fixed for the
             # life of the stream, so this is the only time any of it is
